@@ -142,6 +142,17 @@ MUTANTS += [
      "        if left.r != right and left != right.r:\n            raise ValueError(\"{} cannot be cupped with {}\".format(left, right))\n        self.left, self.right = left, right\n        super().__init__(\"Cup({}, {})\".format(left, right), left @ right, Ty())",
      "refactor: a non-adjoint Cup is refused with another exception class and message"),
 ]
+MUTANTS += [
+    ("i04", "C01", "discopy/cat.py",
+     "        return list(self._boxes)\n\n    def __iter__(self):",
+     "        return self._boxes\n\n    def __iter__(self):",
+     "Arrow.boxes hands out the internal list: a caller (or library code) that edits it edits the diagram"),
+    ("i06", "C06", "discopy/rewriting.py",
+     "    diagram, cache = self, set()\n",
+     "    diagram, cache = self, _SEEN\n",
+     "normal_form keeps its set of visited diagrams across calls (module-level cache): the second "
+     "normalisation that passes through an already visited diagram reports NotImplementedError"),
+]
 DISABLED = {"m14", "m15", "m16"}
 # changes under which every property still holds: the check must stay CLEAN (soundness)
 EXPECT_CLEAN = {
@@ -212,12 +223,16 @@ def main(args):
         if mid in DISABLED or (args and mid not in args):
             continue
 
-        def apply_fn(repo, path=path, old=old, new=new):
+        def apply_fn(repo, path=path, old=old, new=new, mid=mid):
             f = os.path.join(repo, path)
             s = open(f).read()
             if s.count(old) != 1:
                 raise RuntimeError("mutant anchor not found exactly once in " + path)
-            open(f, "w").write(s.replace(old, new))
+            s = s.replace(old, new)
+            if mid == "i06":
+                s = s.replace("def normal_form(self, normalizer=None, **params):",
+                              "_SEEN = set()\n\n\ndef normal_form(self, normalizer=None, **params):")
+            open(f, "w").write(s)
         todo.append((mid, prop, apply_fn, what))
     for d in sorted(glob.glob(os.path.join(VERIF, "seeded", "*"))):
         mid = os.path.basename(d)
